@@ -129,7 +129,12 @@ class Gen:
         if isinstance(ty, Assoc):
             return [[self.s(), self.value(ty.valty, depth + 1)] for _ in range(self.rng.randrange(4))]
         if isinstance(ty, SeqOf):
-            return [self.value(ty.elem, depth + 1) for _ in range(self.rng.randrange(4))]
+            out = [self.value(ty.elem, depth + 1) for _ in range(self.rng.randrange(4))]
+            # repeated elements are an interesting input class of their own (de-duplication, "exactly once" clauses)
+            while out and self.rng.random() < 0.35 and len(out) < 6:
+                import copy
+                out.insert(self.rng.randrange(len(out) + 1), copy.deepcopy(self.rng.choice(out)))
+            return out
         if isinstance(ty, TupleOf):
             return tuple(self.value(t, depth + 1) for t in ty.elems)
         if isinstance(ty, Rec):
